@@ -811,3 +811,12 @@ def _nc_obj_getattr(I, obj, name):
 
 
 register_hook('obj_getattr', _nc_obj_getattr)
+
+
+@model('builtins.bytes')
+def _bytes(I, args, kw):
+    if not args:
+        return b''
+    if isinstance(args[0], (bytes, str)):
+        return bytes(args[0], *args[1:]) if isinstance(args[0], str) else args[0]
+    raise Unsupported('bytes()')
